@@ -239,7 +239,27 @@ def r08_2(prog, out):
             if e1.kind != "remove_front":
                 continue
             for e2 in effs:
-                if e2.kind != "insert_back" or e1.leaf()[0] != e2.leaf()[0]:
+                if e2.kind != "insert_back":
+                    continue
+                if e1.leaf()[0] != e2.leaf()[0]:
+                    # taken and re-queued through wrappers (Messages::pop_front / Messages::append, a local helper): judged at
+                    # the two call sites in the actor method -- the value handed to the appending call derives from the
+                    # value the popping call returned, and the wrapper appends (a value derived from) its own parameter
+                    if e1.body != e2.body or e1.bb == e2.bb or (e1.body, e1.bb, e2.bb, "via") in seen:
+                        continue
+                    seen.add((e1.body, e1.bb, e2.bb, "via"))
+                    bi0 = prog.info(e1.body)
+                    tc = bi0.call_at(e2.bb)
+                    hb, hbb = e2.leaf()
+                    ht = prog.info(hb).call_at(hbb)
+                    if tc is None or ht is None or len(ht.args) < 2 or len(tc.args) < 2 or not bi0.cfg.can_reach(e1.bb, e2.bb):
+                        continue
+                    takes_param = not e2.chain or any(r[0] == "param" and r[1] == hb for r in sl.of(hb, ht.args[1]).roots)
+                    passed = any((e1.body, e1.bb) in sl.of(e1.body, a).sites for a in tc.args[1:])
+                    if takes_param and passed:
+                        out.violation("backlog:%s:rotation" % prog.short(e1.body), bi0.loc(e2.bb), "part of what was taken from the front of the backlog is put "
+                                      "back at the *back*: it now waits behind messages that were published later, so first deliveries no longer "
+                                      "follow publish order", ["taken at %s" % bi0.loc(e1.bb), "re-queued at %s (%s)" % (bi0.loc(e2.bb), e2.lib.split("::")[-1])])
                     continue
                 lb, b1 = e1.leaf()
                 b2 = e2.leaf()[1]
